@@ -74,4 +74,13 @@ static const char *errname(int e) {
     }
 }
 
+/* stdout is fully buffered for speed; make sure everything printed before a sanitizer abort
+ * reaches the transcript, so that the failing operation is the first one without a result */
+void __sanitizer_set_death_callback(void (*cb)(void)) __attribute__((weak));
+static void verif_flush_cb(void) { fflush(stdout); }
+static void harness_init(void) {
+    setvbuf(stdout, NULL, _IOFBF, 1 << 16);
+    if (__sanitizer_set_death_callback) __sanitizer_set_death_callback(verif_flush_cb);
+}
+
 #endif
